@@ -115,15 +115,13 @@ func (s *JavaAPIListener) EnterAnnotation(ctx *parser.AnnotationContext) {
 		if hasEnterClass {
 			addApiMethod(annotationName)
 		}
-
-		return
 	}
 
 	if ctx.ElementValuePairs() != nil {
 		allValuePair := ctx.ElementValuePairs().(*parser.ElementValuePairsContext).AllElementValuePair()
 		for _, valuePair := range allValuePair {
 			pair := valuePair.(*parser.ElementValuePairContext)
-			if pair.Identifier().GetText() == "method" {
+			if pair.Identifier().GetText() == "method" && annotationName == "RequestMapping" {
 				addApiMethod(pair.ElementValue().GetText())
 			}
 			if pair.Identifier().GetText() == "value" {
